@@ -128,6 +128,9 @@ func genYModsCase(r *Rng) Case {
 		} else {
 			inc = append(inc, "mcs2")
 		}
+		if r.Chance(40) {
+			s1["imports"] = []any{"ma"} // a module mc imports anyway
+		}
 		all["mc"]["subs"] = []any{s1, s2}
 		all["mc"]["includes"] = inc
 	}
@@ -140,8 +143,9 @@ func genYModsCase(r *Rng) Case {
 		last := func(kind string) mspec { l := carr(s, kind); return l[len(l)-1].(mspec) }
 		f := pick(r, []string{"feature-cycle", "identity-cycle", "typedef-cycle-used", "typedef-cycle-unused", "grouping-cycle", "grouping-cycle-nested",
 			"import-cycle", "import-self", "import-missing", "unknown-prefix", "unknown-typedef", "unknown-grouping", "unknown-feature", "unknown-identity",
-			"dup-feature", "dup-identity", "dup-typedef", "dup-grouping", "bad-augment-path", "dev-race", "include-cycle", "include-missing"})
-		if (f == "include-cycle" || f == "include-missing") && all["mc"]["subs"] == nil {
+			"dup-feature", "dup-identity", "dup-typedef", "dup-grouping", "bad-augment-path", "dev-race", "include-cycle", "include-missing",
+			"sub-import-missing", "sub-import-cycle"})
+		if (f == "include-cycle" || f == "include-missing" || f == "sub-import-missing" || f == "sub-import-cycle") && all["mc"]["subs"] == nil {
 			f = "feature-cycle"
 		}
 		c["fault"] = f
@@ -198,6 +202,16 @@ func genYModsCase(r *Rng) Case {
 			}
 		case "import-cycle":
 			c["extraImports"] = []any{[]any{"ma", "mc"}}
+		case "sub-import-missing":
+			// an import written only in a submodule is an import of the module
+			carr(all["mc"], "subs")[0].(mspec)["imports"] = []any{"nowhere"}
+		case "sub-import-cycle":
+			// md imports mc, and only mc's submodule imports md
+			carr(all["mc"], "subs")[0].(mspec)["imports"] = []any{"md"}
+			md := mspec{"name": "md"}
+			specs = append(specs, md)
+			c["mods"] = specs
+			c["extraImports"] = []any{[]any{"md", "mc"}}
 		case "import-self":
 			c["extraImports"] = []any{[]any{m, m}}
 		case "import-missing":
@@ -373,6 +387,9 @@ func renderSub(parent string, s mspec) string {
 	n := cstr(s, "name")
 	var b strings.Builder
 	fmt.Fprintf(&b, "submodule %s { belongs-to %s { prefix %s; }\n", n, parent, parent)
+	for _, i := range carr(s, "imports") {
+		fmt.Fprintf(&b, "  import %s { prefix %s; }\n", i.(string), i.(string))
+	}
 	for _, i := range carr(s, "includes") {
 		fmt.Fprintf(&b, "  include %s;\n", i.(string))
 	}
